@@ -10,7 +10,12 @@ This property is thin on proof content: once the distances are tables, "nearest"
 list" and the tolerance rule is one comparison.  What the theorems do pin down is *which* comparison the
 code makes, in which unit, on which quantity — and that is where the edge matcher is wrong
 (`edge_tolerance_counterexample`): it compares the squared coordinate-DEGREE distance with the tolerance
-in METRES.
+in METRES.  The vertex matcher converts correctly but rejects a distance exactly AT the tolerance
+(`vertex_tolerance_boundary_counterexample`).  Both tolerance clauses are therefore `_partial`; everything
+else (nearest, first admissible, other fields, optional destination) is proved in full.
+
+Outside the theorems: the f32 rounding of coordinates and of `haversine`, the geometry behind `distance_2`
+(for edges it is the distance to the CENTROID of the linestring, not to the linestring), `rstar` itself.
 -/
 import Compass.Proofs.MapMatch
 
